@@ -298,6 +298,56 @@ func checkC14(p *Prog, rp *Report) {
 		c.bad("deb.loadDeb2Control", "", "function not found", nil)
 	}
 
+	// C14-DATA: the data stream handed to the caller is untouched by the loader
+	dt := rp.Rule("C14-DATA", "the data tar stream is handed to the caller unread", 1)
+	if fn := p.Func("deb", "loadDeb2Data"); fn != nil {
+		var tarCall *ssa.Call
+		tarCalls := map[ssa.Value]bool{}
+		for _, c := range allCalls(fn) {
+			if strings.HasSuffix(calleeName(c.Common()), "deb.ArEntry).Tarfile") {
+				tarCall, _ = c.(*ssa.Call)
+				tarCalls[tarCall] = true
+			}
+		}
+		okData := tarCall != nil
+		detail := "the data loader does not open the data member with Tarfile()"
+		if len(tarCalls) > 1 {
+			okData = false
+			detail = "the data member is opened more than once: the first stream is consumed (a probe read) before the caller gets a second one"
+		} else if tarCall != nil {
+			for _, c := range allCalls(fn) {
+				n := calleeName(c.Common())
+				for _, a := range append([]ssa.Value{c.Common().Value}, c.Common().Args...) {
+					if a == nil {
+						continue
+					}
+					if ex, ok := a.(*ssa.Extract); ok && ex.Tuple == ssa.Value(tarCall) && ex.Index < 2 {
+						okData = false
+						detail = "the loader calls " + shortFn(n) + c.Common().Method.String() + " on the data stream before handing it to the caller: an empty or unusual data.tar is rejected, and the caller no longer reads from the start"
+					}
+				}
+			}
+			// both results must be stored in the Deb
+			stores := map[string]bool{}
+			for _, b := range fn.Blocks {
+				for _, ins := range b.Instrs {
+					if st, ok := ins.(*ssa.Store); ok {
+						if ex, ok := st.Val.(*ssa.Extract); ok && ex.Tuple == ssa.Value(tarCall) {
+							stores[tm.term(st.Addr)] = true
+						}
+					}
+				}
+			}
+			if !stores["&p1.Data"] || !stores["&p1.Closer"] {
+				okData = false
+				detail = fmt.Sprintf("tar reader and closer are not both stored in Deb.Data / Deb.Closer (stores: %v)", keysOf(stores))
+			}
+		}
+		dt.check(okData, "deb.loadDeb2Data", p.Pos(fn.Pos()), "Tarfile()'s reader and closer go straight into Deb.Data and Deb.Closer", detail)
+	} else {
+		dt.bad("deb.loadDeb2Data", "", "function not found", nil)
+	}
+
 	d := rp.Rule("C14-DET", "no result depends on map iteration order", 1)
 	detRule(p, d, "deb")
 	selectorRule(p, d, false)
@@ -371,6 +421,17 @@ func c14Codecs(p *Prog, rp *Report) {
 		for _, s := range errDiscipline(fn, func(n string, c *ssa.Call) bool { return strings.HasSuffix(n, ".NewReader") }) {
 			if s.Status != "returned" && s.Status != "checked" {
 				okErr = false
+			}
+		}
+		if ext == ".xz" {
+			// the dictionary limit must stay the library default (0): a lower limit rejects packages built with xz -7..-9
+			for _, c := range allCalls(fn) {
+				if calleeName(c.Common()) == ctor && len(c.Common().Args) >= 2 {
+					if n, isC := constInt(c.Common().Args[1]); !isC || n != 0 {
+						okCtor = false
+						others = append(others, fmt.Sprintf("xz.NewReader with dictionary limit %v instead of the default 0", c.Common().Args[1]))
+					}
+				}
 			}
 		}
 		r.check(okCtor && len(others) == 0 && okErr, key, p.Pos(fn.Pos()), "wired to "+ctor+"(reader); its error is returned", fmt.Sprintf("expected %s(reader) with its error returned; constructor calls found: ok=%v others=%v errors-propagated=%v", ctor, okCtor, others, okErr))
